@@ -211,6 +211,7 @@ def op_line(op):
 
 
 def run_impl(exe, d, case, rw=False, timeout=20):
+    rw = rw or any(o[0] == "p" for o in case["ops"])
     lines = ["o %d" % (1 if rw else 0)] + [op_line(o) for o in case["ops"]]
     rc, out = vlib.sh([exe, "-O", d], inp=("\n".join(lines) + "\n").encode(), timeout=timeout)
     res = []
@@ -289,6 +290,8 @@ def impl_canon(tokens):
         return "K" if int(tokens[1]) == 0 else "E %s" % tokens[2]
     if k == "r":
         return "P %s" % tokens[1]
+    if k == "p":
+        return "E %s" % tokens[2] if int(tokens[2]) else "W %s" % tokens[1]
     return " ".join(tokens)
 
 
@@ -363,6 +366,14 @@ def gen_case(rng, encs=None, model_only=False):
             a = rng.choice(["r0", "r1"]); b = "r1" if a == "r0" else "r0"
             if rng.random() < 0.3: b = a
             derived.append(dict(name=nm, kind="M", a=a, b=b))
+    mplex = nraw >= 2 and rng.random() < 0.25 and not model_only
+    if mplex:
+        # index field r1 takes few values so that the count value recurs; inputs of equal length
+        raws[1]["vals"] = [rng.randint(0, 3) for _ in raws[0]["vals"]]
+        raws[1].pop("tail", None); raws[0].pop("tail", None)
+        derived.append(dict(name="mx", kind="X", cnt="r1", cval=rng.randint(0, 3), period=rng.choice([0, 0, 4]), **{"in": "r0"}))
+        if rng.random() < 0.5:
+            derived.append(dict(name="mxl", kind="L", m=2, b=1, **{"in": "mx"}))
     case = dict(enc=enc, spf=spf, foff=foff, raws=raws, derived=derived)
     sp = Spec(case)
     fields = names + [f["name"] for f in derived]
@@ -370,6 +381,8 @@ def gen_case(rng, encs=None, model_only=False):
     limit = rng.random() < 0.2
     if limit:
         ops.append(("l", rng.choice([1, 2, 3])))
+    if mplex:
+        ops.append(("k", -1))       # GD_LOOKBACK_ALL: the documented setting under which lookback cannot change the result
     nops = rng.randint(5, 60)
     bad = rng.random() < 0.06
     FO = foff * spf
@@ -383,10 +396,25 @@ def gen_case(rng, encs=None, model_only=False):
             if c < 0.25: return max(0, rng.choice([0, FO, FO - 1, FO + 1, e, e - 1, e - 3, e + 1, e + 4]))
             if c < 0.5: return max(0, FO + (64 // size) * rng.randint(0, 6) + rng.randint(-2, 2))
             return rng.randint(0, max(1, e + 3))
+        if mplex and enc == "none" and rng.random() < 0.2:
+            # a write to one of the MPLEX inputs: later reads must reflect exactly that change
+            rf = rng.choice(["r0", "r1"]); t = [r for r in raws if r["name"] == rf][0]["type"]
+            nn = rng.randint(1, 6); stp = max(FO, position())
+            lo, hi = (0, 3) if rf == "r1" else ((0, 255) if t == "UINT8" else (-128, 127) if t == "INT8" else (-400, 400) if t[0] == "I" else (0, 800))
+            if rng.random() < 0.5:
+                # aimed at the start-value cache: read [s, s+n), change a sample just before s+n, read on from s+n
+                s_ = max(FO, position()); n_ = rng.randint(3, 12)
+                ops.append(("g", "mx", s_, n_, "i64"))
+                ops.append(("p", rf, max(FO, s_ + n_ - 1 - rng.randint(0, 3)), 1, "i64", [rng.randint(lo, hi)]))
+                ops.append(("g", "mx", s_ + n_, 3, "i64"))
+            else:
+                ops.append(("p", rf, stp, nn, "i64", [rng.randint(lo, hi) for _ in range(nn)]))
+            continue
         if u < 0.55:
             st = "H" if rng.random() < 0.18 else position()
             n = rng.choice([0, 1, 1, 2, 3, 5, 8, 13, 40, 70, 200]) if rng.random() < 0.8 else rng.randint(0, 64)
-            ops.append(("g", f, st, n, rng.choice(["i64", "i64", "f64", "i32"])))
+            over_mx = any(g["kind"] == "X" for g in derived) and (f.startswith("mx"))
+            ops.append(("g", f, st, n, rng.choice(["i64", "i32"]) if over_mx else rng.choice(["i64", "i64", "f64", "i32"])))
         elif u < 0.70:
             w = rng.choice("SSSCE")
             off = position() if w == "S" else rng.randint(-6, 6) if w == "C" else rng.randint(-8, 2)
@@ -436,6 +464,10 @@ def judge_spec(case, res):
     sp = Spec(case)
     bad = []
     fp = {}          # field -> position established by the immediately preceding gd_seek of that field
+    # under an open limit one input of a two-input field may be auto-closed (pointer reset, as
+    # documented) while the other is being positioned: no pointer claims for such fields
+    limited = any(o[0] == "l" for o in case["ops"])
+    multi = lambda f: limited and len(set(r for r, _ in sp.inputs(f))) > 1
     for i, (o, (tok, opn)) in enumerate(zip(case["ops"], res)):
         got = impl_canon(tok)
         k = o[0]
@@ -443,7 +475,7 @@ def judge_spec(case, res):
             f, st, n = o[1], o[2], o[3]
             exp = None
             if st == "H":
-                if f in fp:
+                if f in fp and not multi(f):
                     exp = ("D " + " ".join(str(v) for v in sp.window(f, fp[f], n))).strip()
             elif st < -1:
                 exp = "E %d" % E_RANGE
@@ -459,12 +491,13 @@ def judge_spec(case, res):
             if base is not None:
                 tgt = base + off
                 if tgt < 0: exp = "E %d" % E_RANGE
+                elif multi(f): pass
                 elif not sp.shifted(f):
                     if sp.bof(f) <= tgt <= sp.eof(f): exp = "P %d" % tgt
                 if got == "P %d" % tgt and tgt >= 0: fp = {f: tgt}
             if exp is not None and exp != got: bad.append((i, exp, got))
         elif k == "t":
-            if o[1] in fp and got != "P %d" % fp[o[1]]: bad.append((i, "P %d" % fp[o[1]], got))
+            if o[1] in fp and not multi(o[1]) and got != "P %d" % fp[o[1]]: bad.append((i, "P %d" % fp[o[1]], got))
         elif k in "cf":
             fp = {}
             if got != "K": bad.append((i, "K", got))
@@ -472,6 +505,17 @@ def judge_spec(case, res):
             fp = {}
         elif k == "r":
             if tok[1] != "0": bad.append((i, "r 0", " ".join(tok)))
+        elif k == "p":
+            # gd_putdata on a RAW field of an in-place encoding: reads reflect exactly that change
+            f, st, n, vals = o[1], o[2], o[3], o[5]
+            fp = {}
+            if st < sp.foff: exp = "E %d" % E_RANGE
+            else:
+                a = sp.data[f]; j = st - sp.foff
+                if j > len(a): a.extend([0] * (j - len(a)))
+                a[j:j + n] = vals[:n]
+                exp = "W %d" % n
+            if exp != got: bad.append((i, exp, got))
         # an LRU auto-close during this call: documented to act like gd_raw_close
         if i > 0 and any(res[i - 1][1].get(r) == "1" and opn.get(r) == "0" for r in sp.raw): fp = {}
     return bad
@@ -563,7 +607,18 @@ def attribute(drv, case, res, cfg, eager, upto):
     return keep
 
 
+MPLEX_KEY = "C02/mplex/lookback-restores-pointers-with-whence-as-file-mode"
+MPLEX_CACHE_KEY = "C02/mplex/start-value-cache-survives-putdata-on-an-input"
+
 WITNESSES = {
+    MPLEX_CACHE_KEY: dict(
+        enc="none", raws=[dict(name="r0", type="UINT8", vals=list(range(100))), dict(name="r1", type="UINT8", vals=[k % 4 for k in range(100)])],
+        derived=[dict(name="mx", kind="X", cnt="r1", cval=2, period=0, **{"in": "r0"})],
+        ops=[("k", -1), ("g", "mx", 10, 9, "i64"), ("p", "r0", 18, 1, "i64", [200]), ("g", "mx", 19, 3, "i64")]),
+    MPLEX_KEY: dict(
+        enc="gzip", raws=[dict(name="a", type="UINT8", vals=list(range(100))), dict(name="c", type="UINT8", vals=[k % 4 for k in range(100)])],
+        derived=[dict(name="mx", kind="X", cnt="c", cval=2, period=0, **{"in": "a"})],
+        ops=[("l", 2), ("g", "mx", 17, 2, "i64")]),
     "C02/bzip2/seek-to-before-window": dict(
         enc="bzip2", raws=[dict(name="a", type="UINT8", vals=list(range(200)))],
         ops=[("g", "a", 150, 4, "i64"), ("g", "a", 3, 4, "i64")]),
@@ -745,6 +800,12 @@ def main():
         if key is None and in_model(case, strict=False) and len(res) == len(case["ops"]):
             hits = attribute(drv, case, res, cfg, True, i)
             if len(hits) >= 1: key = KEYS[hits[0]]
+        if key is None and got.startswith("E -5") and any(f["kind"] == "X" for f in case.get("derived", [])) \
+                and any(o[0] == "l" for o in case["ops"]) and case["enc"] in ("gzip", "bzip2", "lzma"):
+            key = MPLEX_KEY
+        if key is None and any(f["kind"] == "X" for f in case.get("derived", [])) and any(o[0] == "p" for o in case["ops"][:i]) \
+                and case["ops"][i][0] == "g" and case["ops"][i][1].startswith("mx"):
+            key = MPLEX_CACHE_KEY
         if key is None and i < len(case["ops"]) and case["ops"][i][0] == "r":
             key = KEYS["fix_leak"]
         if key is None and not in_model(case, strict=False) and all(f["kind"] in "PLBM" for f in case.get("derived", [])) \
